@@ -1931,7 +1931,16 @@ fn note_trace(out: &Outcome, case: u64, st: &mut Stats) {
     st.max("max_schedule_len", out.trace.len() as u64);
 }
 
-fn sched_case(case: u64, rng: &mut Rng, st: &mut Stats, budget_runs: u64, three: bool, cross: bool) {
+/// `deadline` only cuts exploration short (counted), it never decides anything.
+fn sched_case(
+    case: u64,
+    rng: &mut Rng,
+    st: &mut Stats,
+    budget_runs: u64,
+    three: bool,
+    cross: bool,
+    deadline: std::time::Instant,
+) {
     let n_threads = if three { 3 } else { 2 };
     let len = if three { 1 + rng.usize(2) } else { 2 + rng.usize(2) };
     let force_compact = rng.bool();
@@ -1955,6 +1964,10 @@ fn sched_case(case: u64, rng: &mut Rng, st: &mut Stats, budget_runs: u64, three:
         if runs >= budget_runs {
             break;
         }
+        if std::time::Instant::now() > deadline {
+            st.count("schedule_budget_cut_by_time");
+            break;
+        }
     }
     st.count(if exhausted { "schedule_spaces_exhausted" } else { "schedule_spaces_truncated" });
     if !exhausted && st.violations.is_empty() {
@@ -1965,7 +1978,7 @@ fn sched_case(case: u64, rng: &mut Rng, st: &mut Stats, budget_runs: u64, three:
             runs += 1;
             note_trace(&out, case, st);
             judge_concurrent(&out, &plan, "S-hook/random", rng, st);
-            if !st.violations.is_empty() {
+            if !st.violations.is_empty() || std::time::Instant::now() > deadline {
                 break;
             }
         }
@@ -2015,11 +2028,13 @@ fn main() {
         });
     }
     if run.wants("sched") {
+        let dl = std::time::Instant::now() + run.time_left().mul_f64(t.pick(0.22, 0.4));
         run.parallel("sched2", t.pick(56, 1500), t.pick(0.22, 0.4), |c, rng, st| {
-            sched_case(c, rng, st, t.pick(100, 1200), false, false)
+            sched_case(c, rng, st, t.pick(100, 1200), false, false, dl)
         });
+        let dl = std::time::Instant::now() + run.time_left().mul_f64(t.pick(0.2, 0.5));
         run.parallel("sched3", t.pick(20, 500), t.pick(0.2, 0.5), |c, rng, st| {
-            sched_case(c, rng, st, t.pick(80, 800), true, false)
+            sched_case(c, rng, st, t.pick(80, 800), true, false, dl)
         });
     }
     if run.wants("stress") {
@@ -2029,8 +2044,9 @@ fn main() {
     }
     if cross_only {
         // experiment, never part of a verdict run: insert racing remove on the same id
+        let dl = std::time::Instant::now() + run.time_left().mul_f64(0.9);
         run.parallel("sameid", t.pick(64, 800), 0.9, |c, rng, st| {
-            sched_case(c, rng, st, t.pick(150, 1000), false, true)
+            sched_case(c, rng, st, t.pick(150, 1000), false, true, dl)
         });
     }
     // Histories that index a document over stale entries of its id: a candidate defect of the
@@ -2041,7 +2057,7 @@ fn main() {
         || (run.only.is_none() && finding_registered());
     if run_finding {
         // last section: its violations must not crowd out those of the verdict sections
-        run.parallel("stale_reinsert", t.pick(300, 6000), t.pick(0.3, 0.9), |c, rng, st| finding_case(c, rng, st, 40));
+        run.parallel("stale_reinsert", t.pick(100, 6000), t.pick(0.12, 0.9), |c, rng, st| finding_case(c, rng, st, 40));
     } else if run.only.is_none() {
         run.set_extra("sections_not_run", json!([format!(
             "stale_reinsert: candidate defect {FINDING_SIG} is not registered in known_findings.json (run with --only finding)")]));
